@@ -373,6 +373,10 @@ fn main() {
             for a in ["/a/b", "http://x/é?q=1#f", "a`b", "a😀", "a\\b", "\\", "a\\:b\\`c", "[x]@y&z=1;2"] { vals.push(Value::make_uri(a)); }
             // numbers: every component incl. the sign of zero, subnormals, 1e21-class magnitudes, the non-finite ones, units
             let kg = libhaystack::units::get_unit_or_default("kg"); let pct = libhaystack::units::get_unit_or_default("%");
+            // units whose symbol starts with or contains a character other than a letter
+            for u in ["/h", "/s", "$", "\u{b0}F", "m\u{b2}", "kW/ft\u{b2}", "_/h", "%RH", "\u{3a9}", "\u{20ac}"] {
+                if let Some(unit) = libhaystack::units::get_unit(u) { vals.push(Value::make_number_unit(12.5, unit)); vals.push(Value::make_number_unit(-3.0, unit)); }
+            }
             for x in [0.0f64, -0.0, 1.0, -1.0, 0.5, -2.25, 1e-7, 5e-324, 2.2250738585072014e-308, 1e21, 123456789012345680000.0, 9007199254740993.0,
                       9223372036854775807.0, -9223372036854775808.0, 1.7976931348623157e308, -1.7976931348623157e308, 0.1 + 0.2, f64::NAN, f64::INFINITY, f64::NEG_INFINITY] {
                 vals.push(Value::make_number(x));
